@@ -103,6 +103,11 @@ fn fresh<'a>(bytes: &'a [u8], declared: u64, ctl: &'a Ctl) -> Mp4Reader<SR<'a>> 
 }
 
 fn reader_graph(name: &str, bytes: &[u8], declared: u64, depth_sweep: usize, l: &mut Local, states_total: &mut u64, trans_total: &mut u64) {
+    if l.outcomes.contains_key("reader:state_space_exceeds_cap_after_violation") {
+        // a verdict exists already and every further graph would run into the same cap: skip (recorded in the evidence)
+        l.outcome("reader:graph_skipped_after_verdict");
+        return;
+    }
     let alpha = alphabet(bytes, declared);
     // baseline table: each call once on a fresh reader
     let table: Vec<String> = alpha
@@ -136,7 +141,8 @@ fn reader_graph(name: &str, bytes: &[u8], declared: u64, depth_sweep: usize, l: 
     seen.insert(f0, vec![]);
     q.push_back(vec![]);
     let mut transitions = 0u64;
-    while let Some(path) = q.pop_front() {
+    let violations_before = l.violations.len();
+    'bfs: while let Some(path) = q.pop_front() {
         for (i, _) in alpha.iter().enumerate() {
             let mut p2 = path.clone();
             p2.push(i);
@@ -160,6 +166,13 @@ fn reader_graph(name: &str, bytes: &[u8], declared: u64, depth_sweep: usize, l: 
             }
             if !seen.contains_key(&fp) {
                 if seen.len() > 5000 {
+                    // A reader whose state keeps growing under read-only calls: if history dependence has already been
+                    // observed this is its symptom and the violations found so far are the verdict; otherwise the
+                    // search cannot be completed and that is a failure of the machinery, not a verdict.
+                    if l.violations.len() > violations_before {
+                        l.outcome("reader:state_space_exceeds_cap_after_violation");
+                        break 'bfs;
+                    }
                     machinery_failure("C15: more than 5000 reader states — fingerprint is not canonical or the state space is unexpectedly large");
                 }
                 seen.insert(fp, p2.clone());
